@@ -93,6 +93,11 @@ def run(F, R, tier):
         n_ok = 0
         for q in tab.ok():
             n_ok += 1
+            # (0) "every listed value" means every: the accepting result is reached by falling out of the loop over the values, not by a
+            # `return Ok` from inside it after the first value that passes
+            for e in q.events:
+                if e.kind == "loop-return" and SR.is_success(e.args[0]) and not SR.is_failure(e.args[0]):
+                    r2.fail((cfn, "all-values"), "validate_crit returns Ok from inside the loop over the crit values: the values after the first one that passes are not examined (crit = [\"b64\", \"alg\"] is accepted)")
             # (a) an unprotected crit is never accepted
             for args, val in has_claim_atoms(q):
                 if val and SR.derives(args[0], UNP) and args[1] == ("lit", "crit"):
